@@ -10,11 +10,13 @@ import (
 	"strings"
 	"sync"
 	"sync/atomic"
+	"time"
 
 	"github.com/miekg/dns"
 
 	"verifharness/core"
 	"verifharness/model"
+	"verifharness/netsim"
 )
 
 var tsigAlgs = []string{dns.HmacSHA1, dns.HmacSHA224, dns.HmacSHA256, dns.HmacSHA384, dns.HmacSHA512}
@@ -518,11 +520,120 @@ func c11Concurrent(w *core.W, j int) {
 	}
 }
 
+// c11ServerChain: the MAC chain as a Server's ResponseWriter produces it. A signed AXFR-style request
+// arrives over a (simulated) stream; the handler answers with 1..5 envelopes through Transfer.Out, the
+// way the package documents it; every envelope on the wire has to carry the RFC 8945 MAC: the first over
+// the request MAC and the full TSIG variables, each later one over its predecessor's MAC and the timers.
+func c11ServerChain(w *core.W, j int) {
+	g := model.NewGen(w.Rng(j))
+	r := g.R
+	alg := tsigAlgs[j%len(tsigAlgs)]
+	secret := g.Bytes(8 + r.IntN(40))
+	secretB64 := base64.StdEncoding.EncodeToString(secret)
+	keyName := model.Name{[]byte("xfr-key"), []byte("example")}
+	secrets := map[string][]byte{keyName.Pres(): secret}
+	n := 1 + (j/len(tsigAlgs))%5
+	ln := netsim.NewListener()
+	started := make(chan struct{})
+	done := make(chan error, 1)
+	var status error
+	h := dns.HandlerFunc(func(rw dns.ResponseWriter, req *dns.Msg) {
+		status = rw.TsigStatus()
+		ch := make(chan *dns.Envelope, n)
+		for i := 0; i < n; i++ {
+			ch <- &dns.Envelope{RR: []dns.RR{&dns.A{Hdr: dns.RR_Header{Name: fmt.Sprintf("h%d.zone.example.", i), Rrtype: 1, Class: 1, Ttl: 60}, A: []byte{10, 1, byte(i), byte(j)}}}}
+		}
+		close(ch)
+		done <- new(dns.Transfer).Out(rw, req, ch)
+	})
+	srv := &dns.Server{Listener: ln, Handler: h, ReadTimeout: time.Hour, TsigSecret: map[string]string{keyName.Pres(): secretB64}, NotifyStartedFunc: func() { close(started) }}
+	serveErr := make(chan error, 1)
+	go func() { serveErr <- srv.ActivateAndServe() }()
+	select {
+	case <-started:
+	case <-time.After(20 * time.Second):
+		w.Inconclusive("server-chain-server-did-not-start")
+		return
+	}
+	defer func() { srv.Shutdown(); <-serveErr }()
+	q := new(dns.Msg)
+	q.SetAxfr("zone.example.")
+	q.Id = uint16(0x5000 + j)
+	plain, _ := q.Pack()
+	now := uint64(time.Now().Unix())
+	qt := &model.TSIG{KeyName: keyName, Algorithm: mustName(alg), TimeSigned: now, Fudge: 300}
+	signedQ, reqMAC, err := qt.Sign(plain, secret, nil, false)
+	if err != nil {
+		return
+	}
+	cl, derr := ln.Dial()
+	if derr != nil {
+		w.Inconclusive("server-chain-dial")
+		return
+	}
+	defer cl.Close()
+	cl.Write(frame(signedQ))
+	w.Eval(1)
+	var outErr error
+	select {
+	case outErr = <-done:
+	case <-time.After(20 * time.Second):
+		w.Inconclusive("server-chain-handler-did-not-finish")
+		return
+	}
+	wit := map[string]any{"alg": alg, "envelopes": n, "request": hx(signedQ)}
+	if status != nil {
+		w.Violation("C11/server-chain/request-rejected/"+alg, fmt.Sprintf("a request signed with the RFC 8945 MAC (made by the harness) reached its handler with TsigStatus %v", status), wit)
+		return
+	}
+	if outErr != nil {
+		w.Violation("C11/server-chain/write-error/"+alg, fmt.Sprintf("Transfer.Out: %v", outErr), wit)
+		return
+	}
+	raw := cl.Drain()
+	prev := reqMAC
+	got := 0
+	for len(raw) >= 2 {
+		l := int(binary.BigEndian.Uint16(raw))
+		if 2+l > len(raw) {
+			break
+		}
+		e := raw[2 : 2+l]
+		raw = raw[2+l:]
+		_, ts, _, ok := model.SplitTSIG(e)
+		if !ok {
+			w.Violation("C11/server-chain/envelope-unsigned/"+alg, fmt.Sprintf("envelope %d of %d written by the server carries no TSIG record", got, n), wit)
+			return
+		}
+		w.Eval(1)
+		if ma, why := c11ModelVerify(e, secrets, prev, got > 0, ts.TimeSigned); !ma {
+			w.Violation("C11/server-chain/mac/"+alg, fmt.Sprintf("envelope %d of %d written through the server's ResponseWriter does not carry the RFC 8945 MAC over %s: %s", got, n,
+				map[bool]string{false: "the request MAC, the message and the TSIG variables", true: "the previous envelope's MAC, the message and the timers"}[got > 0], why),
+				map[string]any{"alg": alg, "envelope": hx(e), "prev_mac": hex.EncodeToString(prev), "index": got})
+			return
+		}
+		// and the library's own verifier, fed the chain the way a secondary walks it
+		if verr := dns.VerifTsigVerify(append([]byte(nil), e...), dns.VerifTsigSecretProvider(map[string]string{keyName.Pres(): secretB64}), hex.EncodeToString(prev), got > 0, ts.TimeSigned); verr != nil {
+			w.Violation("C11/server-chain/own-output-rejected/"+alg, fmt.Sprintf("envelope %d of %d: %v", got, n, verr), wit)
+			return
+		}
+		prev = ts.MAC
+		got++
+	}
+	if got != n {
+		w.Violation("C11/server-chain/envelope-count", fmt.Sprintf("%d envelopes handed to Transfer.Out, %d complete frames on the wire", n, got), wit)
+	}
+	w.Count("server_chains", 1)
+	w.Count("server_chain_envelopes", got)
+	w.NontrivialStr("server-chain", fmt.Sprint(j))
+}
+
 func init() {
 	plan, run := sections(
 		section{"messages", tiered(300, 12000), c11Case},
 		section{"chains", tiered(400, 12000), c11Chain},
 		section{"concurrent", tiered(20, 400), c11Concurrent},
+		section{"server-chain", tiered(50, 1500), c11ServerChain},
 	)
 	core.Register(&core.Monitor{
 		ID: "C11", Level: "exploration", Plan: plan, Run: run,
@@ -530,6 +641,6 @@ func init() {
 			"oracle = independent RFC 8945 digest (model encoder + crypto/hmac): output shape and MAC, window at t, t+-fudge, t+-(fudge+1), +-65536 multiples via the explicit-now hook; soundness under every single-bit flip (messages <= 160 octets, 200 sampled above), " +
 			"~25 field/context/structure alterations; envelope chains of 1..6 made by the library and by the harness, with removal, reordering, alteration and wrong previous MACs; 8 goroutines signing and verifying their own messages with one shared secret at the same time; non-trivial = distinct signed message / chain",
 		Assumptions: []string{"the CLASS of the TSIG RR on the wire is not part of the statement's acceptance condition (the digest always uses ANY)", "now is passed explicitly through the verif hook VerifTsigVerify"},
-		MinObserved: []string{"generated", "window_checks", "alterations_rejected", "exhaustive_bitflip_messages", "chains"},
+		MinObserved: []string{"generated", "window_checks", "alterations_rejected", "exhaustive_bitflip_messages", "chains", "server_chains"},
 	})
 }
